@@ -49,6 +49,9 @@ pub trait Num:
     fn min_(self, o: Self) -> Self;
     fn max_(self, o: Self) -> Self;
     fn as_f64(self) -> Option<f64>;
+    /// natively: the value is neither NaN nor infinite; symbolically (reals): true, the definedness obligations of the
+    /// partial operations are generated from the arena's log instead
+    fn finite(self) -> Self::B;
     fn ge(self, o: Self) -> Self::B {
         o.le(self)
     }
@@ -131,6 +134,9 @@ macro_rules! num_float {
             fn as_f64(self) -> Option<f64> {
                 Some(self as f64)
             }
+            fn finite(self) -> bool {
+                self.is_finite()
+            }
         }
     };
 }
@@ -194,6 +200,9 @@ impl Num for $S {
     }
     fn as_f64(self) -> Option<f64> {
         self.konst()
+    }
+    fn finite(self) -> SymB {
+        SymB::c(true)
     }
 }
 
